@@ -861,6 +861,15 @@ func lostUpdateCases(g *vh.Rand, n int) []Case {
 		a := g.Intn(2)
 		c := Case{Retention: ret, Vers: vers}
 		c.Steps = append(c.Steps, Step{Inst: a, Kind: "merge", Pool: []int{0, 1, 2}}, Step{Inst: 1 - a, Kind: "merge", Pool: []int{0, 2}})
+		// a full-state exchange served BEFORE the local edit (k%3 != 0): whatever the sender keeps from it (e.g. a cached
+		// payload) must not survive the edit, which changes neither the set of ids nor the store version
+		if k%3 != 0 {
+			c.Steps = append(c.Steps, Step{Dt: int64(g.Range(0, 2)) * 1_000_000_000, Kind: "sync"})
+		}
+		if k%3 == 2 { // exchange, edit, exchange, then the edit / expiry below and the final exchange
+			c.Steps = append(c.Steps, Step{Inst: a, Dt: 1_000_000_000, Kind: "set", ID: "sil-a", Edit: vh.Pick(g, []string{"comment", "end"})},
+				Step{Dt: 1, Kind: "sync"})
+		}
 		if g.Bool() {
 			c.Steps = append(c.Steps, Step{Inst: a, Dt: int64(g.Range(1, 5)) * 1_000_000_000, Kind: "expire", ID: "sil-a"})
 		} else {
@@ -1024,7 +1033,7 @@ func TestCheck(t *testing.T) {
 				finish(&c, fmt.Sprintf("all-orders-%d", n))
 			}
 		}
-		for _, c := range lostUpdateCases(g.Fork(), env.N(12, 5)) {
+		for _, c := range lostUpdateCases(g.Fork(), env.N(18, 5)) {
 			c := c
 			finish(&c, "lost-update-repaired-by-full-state")
 		}
